@@ -152,6 +152,7 @@ type Str struct {
 	Max    int       // upper bound on length
 	Nil    bool      // nil []byte
 	Enc    *EncInfo  // non-nil: opaque output of a compressor stream
+	Codec  *CodecInfo // non-nil: opaque serialisation of a value by encoding/json or encoding/xml
 }
 
 func (s *Str) String() string {
